@@ -86,9 +86,25 @@ def spectrum(ctx, npts, p2_plus=0, n=None, cls='Signal'):
         _cmp_spectrum(ctx, 'generate_unpadded_', F3, fr3, vals, dt, npts)
         F4, fr4 = fq.calc_fa_spectrum(sig)
         _cmp_spectrum(ctx, 'calc_unpadded_', F4, fr4, vals, dt, npts)
+        # p2_plus = 0 given explicitly means "next power of two, no extra doubling" in both APIs
+        F6, fr6 = fq.calc_fa_spectrum(sig, p2_plus=0)
+        _cmp_spectrum(ctx, 'calc_explicit_p2_plus_0_', F6, fr6, vals, dt, N)
+        sig2 = getattr(lib, cls)(a, dt)
+        sig2.gen_fa_spectrum(p2_plus=0)
+        _cmp_spectrum(ctx, 'object_explicit_p2_plus_0_', sig2.fa_spectrum, sig2.fa_frequencies, vals, dt, N)
+        sig3 = getattr(lib, cls)(a, dt)
+        sig3.generate_fa_spectrum()
+        _cmp_spectrum(ctx, 'object_generate_', sig3.fa_spectrum, sig3.fa_freqs, vals, dt, N)
     else:
         F5, fr5 = fq.calc_fa_spectrum(sig, n=n, p2_plus=p2_plus if n is None else None)
         _cmp_spectrum(ctx, 'calc_', F5, fr5, vals, dt, N)
+        if n is not None:
+            # a requested n wins over p2_plus in both APIs
+            F7, fr7 = fq.calc_fa_spectrum(sig, n=n, p2_plus=0)
+            _cmp_spectrum(ctx, 'calc_n_and_p2_plus_0_', F7, fr7, vals, dt, N)
+            sig4 = getattr(lib, cls)(a, dt)
+            sig4.gen_fa_spectrum(p2_plus=1, n=n)
+            _cmp_spectrum(ctx, 'object_n_wins_over_p2_plus_', sig4.fa_spectrum, sig4.fa_freqs, vals, dt, N)
 
 
 def relations(ctx, npts):
